@@ -294,6 +294,18 @@ def run_rc_property(pid, cfg, tier, seed, t0):
             r = subprocess.run(cmd, stdout=lf, stderr=subprocess.STDOUT, env=env)
         return i, r.returncode, out, fp, rp, lg
     shard_cmds = {}
+    # seconds-long replay tier: saved shrunk tapes of every confirmed finding (corpus/regress/<id>/*.tape) run first
+    regress = sorted(glob.glob(os.path.join(ROOT, 'corpus', 'regress', pid, '*.tape')))
+    regress_fail = []
+
+    def replay_reg(f):
+        c, o = replay_once(exe, cfg.get('prop', pid), f, ['tmpdir=%s' % rundir])
+        return f, c, o
+    if regress:
+        with ThreadPoolExecutor(min(len(regress), NCPU)) as ex:
+            for f, c, o in ex.map(replay_reg, regress):
+                if c != 0:
+                    regress_fail.append((f, o))
     with ThreadPoolExecutor(min(shards, NCPU)) as ex:
         results = list(ex.map(launch, range(shards)))
 
@@ -367,12 +379,18 @@ def run_rc_property(pid, cfg, tier, seed, t0):
             # fails again twice with the same signature the violation is real and the shard is the reproducible unit.
             again = 0
             seq_out = ''
-            for k in range(2):
+            # timing-dependent signatures (a stop lost in a free-running search) recur only with some probability: several
+            # re-runs, one recurrence suffices (the event itself is an observation on the real engine, not an inference)
+            timing = any(sig.startswith(x) for x in cfg.get('timing_signatures', []))
+            need, tries = (1, 6) if timing else (2, 2)
+            for k in range(tries):
                 c2, o2, rp2 = rerun_shard(exe, shard_cmds[i], rundir, 'seq%d_%d' % (i, k), env)
                 if c2 != 0 and os.path.exists(rp2) and read_sig(rp2).split(':')[0] == read_sig(dest).split(':')[0]:
                     again += 1
                     seq_out = open(rp2).read()
-            if again == 2:
+                    if again >= need:
+                        break
+            if again >= need:
                 dest2 = os.path.join(ROOT, 'replays', '%s-%s-seed%d-shard%d.sequence' % (pid, tier, seed, i))
                 with open(dest2, 'w') as f:
                     f.write('# property %s\n# shard-replay %s\n# signature %s\n' % (pid, json.dumps(strip_outputs(shard_cmds[i][1:])), sig))
@@ -398,6 +416,21 @@ def run_rc_property(pid, cfg, tier, seed, t0):
         else:
             violations.append((dest, sig, last))
 
+    for f, o in regress_fail:
+        sig = read_sig(f)
+        if sig == 'crash':
+            sig = crash_signature(o)
+        c2, o2 = replay_once(exe, cfg.get('prop', pid), f, ['tmpdir=%s' % rundir])
+        if c2 == 0:
+            continue
+        matched = None
+        for k in known:
+            if k.get('signature') and re.search(k['signature'], sig + '\n' + o):
+                matched = k
+        if matched:
+            known_hits.append((matched, f))
+        elif sig not in [v[1] for v in violations]:
+            violations.append((f, sig, o))
     # gates: generator health
     gate_fail = []
     if not violations:
@@ -417,7 +450,8 @@ def run_rc_property(pid, cfg, tier, seed, t0):
                     nontrivial_count_is_lower_bound=capped,
                     unreproduced=unreproduced,
                     known_findings_confirmed=[k.get('what', '') for k, _ in known_hits],
-                    excluded_by_construction=[k.get('exclude_opt') for k in known if k.get('exclude_opt')])
+                    excluded_by_construction=[k.get('exclude_opt') for k in known if k.get('exclude_opt')],
+                    regression_tapes_replayed=len(regress))
     if violations:
         coverage['violation_replays'] = [v[0] for v in violations]
         coverage['violation_signatures'] = [v[1] for v in violations]
